@@ -389,6 +389,19 @@ func (e *Exec) callFn(s *State, fr *Frame, fn *ssa.Function, args []Value, in *s
 		if len(args) > 1 {
 			b, ok2 = args[1].(StrV).concrete()
 		}
+		if !ok1 && ok2 && len(args) > 1 {
+			// symbolic haystack, concrete needle
+			switch name {
+			case "strings.Contains":
+				return ret(s, strPred(args[0].(StrV), func(h []*Term) *Term { return symContains(h, b) }))
+			case "strings.HasPrefix":
+				return ret(s, strPred(args[0].(StrV), func(h []*Term) *Term { return symMatchAt(h, 0, b) }))
+			case "strings.HasSuffix":
+				return ret(s, strPred(args[0].(StrV), func(h []*Term) *Term { return symMatchAt(h, len(h)-len(b), b) }))
+			case "strings.TrimPrefix":
+				return ret(s, symTrimPrefix(args[0].(StrV), b))
+			}
+		}
 		if !ok1 || !ok2 {
 			panic(engineErr("%s on symbolic strings", name))
 		}
@@ -794,4 +807,47 @@ func (e *Exec) doAppend(s *State, fr *Frame, args []Value, in *ssa.Call) []Outco
 	copy(cells[ln:], add)
 	id := e.alloc(s, ArrV{cells})
 	return ret(s, SliceV{id, nil, C(64, 0), C(64, uint64(ln+len(add))), C(64, uint64(ncap)), scal})
+}
+
+// ---- string predicates over symbolic bytes (concrete lengths, guarded alternatives)
+
+func strPred(h StrV, f func([]*Term) *Term) *Term {
+	if h.alt != nil {
+		return IteB(h.alt.c, strPred(h.alt.x, f), strPred(h.alt.y, f))
+	}
+	return f(h.b)
+}
+
+func symMatchAt(h []*Term, pos int, needle string) *Term {
+	if pos < 0 || pos+len(needle) > len(h) {
+		return False()
+	}
+	r := True()
+	for i := 0; i < len(needle); i++ {
+		r = And(r, Cmp("eq", h[pos+i], C(8, uint64(needle[i]))))
+	}
+	return r
+}
+
+func symContains(h []*Term, needle string) *Term {
+	r := False()
+	for p := 0; p+len(needle) <= len(h); p++ {
+		r = Or(r, symMatchAt(h, p, needle))
+	}
+	return r
+}
+
+func symTrimPrefix(h StrV, prefix string) StrV {
+	if h.alt != nil {
+		return StrV{alt: &strAlt{c: h.alt.c, x: symTrimPrefix(h.alt.x, prefix), y: symTrimPrefix(h.alt.y, prefix)}}
+	}
+	m := symMatchAt(h.b, 0, prefix)
+	if m.isFalse() {
+		return h
+	}
+	cut := StrV{b: h.b[len(prefix):]}
+	if m.isTrue() {
+		return cut
+	}
+	return StrV{alt: &strAlt{c: m, x: cut, y: h}}
 }
